@@ -26,6 +26,7 @@ FRAGMENTS = [
     ("EFIndex", "gen_ef"),
     ("Factory", "gen_factory"),
     ("ImpTables", "gen_impedance"),
+    ("H5Appends", "gen_h5"),
 ]
 
 
